@@ -4,3 +4,4 @@ import UgoVerif.Props.C17
 import UgoVerif.Props.C13
 import UgoVerif.Props.C20
 import UgoVerif.Props.C01
+import UgoVerif.Props.C16
